@@ -11,6 +11,9 @@
 //     kind  g8 rgb8 rgba8 bgr8 rgb16 rgb32f dev5 p565 | pl8 pl16c | b1 b2 b4 b6 b12
 //     ctor  d  image(W,H,A)            f  image(W,H,pixel,A)      c  copy of image(W,H,A)
 //           a  image(W2,H2,A2) assigned from image(W,H,A)         r  image(W,H,A).recreate(W2,H2,A2)
+//           q  image(W,H,A) then a SEQUENCE of recreate calls: (W2,H2,A2) followed by the calls of a 13th word
+//              `w,h,a/w,h,a/...` (`-` = none); call number i uses overload i mod 4 of
+//              recreate(w,h,a) / recreate(w,h,pixel,a) / recreate(w,h,a,alloc) / recreate(w,h,pixel,a,alloc)
 //     then every pixel of view(img) and of the view derived by <xforms> (U L T R C I S<sx>,<sy> B<x0>,<y0>,<w>,<h>) is
 //     read and written back through view(x,y), row_begin(y)[x], begin()[i]; fill_pixels / copy_pixels / for_each_pixel run on it
 //   -> n nalloc off fmod row w h lo hi | dw dh dlo dhi | ok        (or `... segv:<byte offset from the allocation start>`)
@@ -156,6 +159,7 @@ template <class Pixel, bool Planar> std::string img_op(std::vector<std::string> 
     std::string const& ctor = w[7];
     long W2 = hv::to_ll(w[8]), H2 = hv::to_ll(w[9]), A2 = hv::to_ll(w[10]);
     auto xs = parse_xf(w[11]);
+    long q_align = A;
     std::string out; g_nalloc = 0; g_last_ptr = nullptr; g_last_n = 0;
     for (auto& s : g_slots) if (s.live) { munmap(s.data - 4096, DATA + 8192); s.live = false; }
     if (sigsetjmp(g_env, 1) != 0) return out + "segv:" + std::to_string(g_fault);
@@ -166,6 +170,24 @@ template <class Pixel, bool Planar> std::string img_op(std::vector<std::string> 
     else if (ctor == "c") { other = new image_t(W, H, A); img = new image_t(*other); }
     else if (ctor == "a") { other = new image_t(W, H, A); img = new image_t(W2, H2, A2); *img = *other; }
     else if (ctor == "r") { img = new image_t(W, H, A); img->recreate(W2, H2, A2); }
+    else if (ctor == "q") {
+        img = new image_t(W, H, A);
+        std::vector<Xf> calls; calls.push_back(Xf{'q', {W2, H2, A2, 0}});
+        if (w.size() > 12) for (auto const& c : parse_xf(w[12])) calls.push_back(c);
+        typename image_t::value_type val{}; Pixel p(val);
+        int k = 0;
+        for (auto const& c : calls) {
+            long cw = c.a[0], ch = c.a[1], ca = c.a[2];
+            // bookkeeping of _align_in_bytes (private): unchanged only when recreate has nothing to do
+            if (!(cw == img->width() && ch == img->height() && ca == q_align)) q_align = ca;
+            switch (k++ % 4) {
+            case 0: img->recreate(cw, ch, ca); break;
+            case 1: img->recreate(cw, ch, p, ca); break;
+            case 2: img->recreate(cw, ch, ca, guard_alloc<unsigned char>()); break;
+            default: img->recreate(cw, ch, p, ca, guard_alloc<unsigned char>()); break;
+            }
+        }
+    }
     else return "bad-op";
     view_t v = gil::view(*img);
     long long ps = gil::memunit_step(typename view_t::x_iterator());
@@ -175,7 +197,7 @@ template <class Pixel, bool Planar> std::string img_op(std::vector<std::string> 
     slot_t* sl = nullptr; for (auto& s : g_slots) if (s.live && first >= s.ptr - 256 && first <= s.ptr + s.n + 256) sl = &s;
     unsigned char* mem = sl ? sl->ptr : g_last_ptr; unsigned long n = sl ? sl->n : 0;
     ORG = mem; g_cur_ptr = mem;
-    long align_used = ctor == "a" ? ((W == W2 && H == H2) ? A2 : A) : ctor == "r" ? ((W == W2 && H == H2 && A == A2) ? A : A2) : A;
+    long align_used = ctor == "a" ? ((W == W2 && H == H2) ? A2 : A) : ctor == "r" ? ((W == W2 && H == H2 && A == A2) ? A : A2) : ctor == "q" ? q_align : A;
     put(out, (long long)n); put(out, g_nalloc);
     if (n == 0) { put(out, 0); put(out, 0); }
     else { put(out, it_addr(v.pixels().x())); put(out, align_used > 0 ? (long long)((unsigned long)first % (unsigned long)align_used) : 0); }
@@ -222,7 +244,7 @@ int main() {
     sigaction(SIGSEGV, &sa, nullptr); sigaction(SIGBUS, &sa, nullptr);
     return hv::run([](std::string const& line) -> std::string {
         auto w = hv::words(line);
-        if (w.size() == 12 && w[0] == "img") {
+        if ((w.size() == 12 || w.size() == 13) && w[0] == "img") {
             std::string const& k = w[1];
 #if KGROUP == 0 || KGROUP == 1
             if (k == "g8") return img_op<gil::gray8_pixel_t, false>(w);
